@@ -171,7 +171,7 @@ def sched3(prog: int, v: int, w: int, p0: int, a0: int, p1: int, a1: int, p2: in
 
 
 def sched4(prog: int, v: int, w: int, p0: int, a0: int, p1: int, a1: int, p2: int, a2: int, p3: int, a3: int):
-    assume(0 <= p0 <= p1 <= p2 <= p3 <= NPOS)
+    assume(0 <= p0 <= p1 <= p2 <= p3 <= 6)
     _harness(pick(prog, 4), [(p0, pick(a0, 4)), (p1, pick(a1, 4)), (p2, pick(a2, 4)), (p3, pick(a3, 4))], v, w)
 
 
@@ -190,12 +190,11 @@ def shards(tier):
             if tier == 'quick':
                 out.append(dict(name=f'sched3/prog={prog},a0={a0}', harness='sched3', fixed=dict(prog=prog, a0=a0), budget_s=300))
             else:
+                out.append(dict(name=f'sched3/prog={prog},a0={a0}', harness='sched3', fixed=dict(prog=prog, a0=a0), budget_s=600))
                 for a1 in range(4):
-                    out.append(dict(name=f'sched4/prog={prog},a0={a0},a1={a1}', harness='sched4', fixed=dict(prog=prog, a0=a0, a1=a1), budget_s=1500))
-                    if prog in (1, 3):
-                        for a2 in range(4):
-                            out.append(dict(name=f'sched5/prog={prog},a0={a0},a1={a1},a2={a2}', harness='sched5',
-                                            fixed=dict(prog=prog, a0=a0, a1=a1, a2=a2), budget_s=3000))
+                    for a2 in range(4):
+                        out.append(dict(name=f'sched4/prog={prog},a0={a0},a1={a1},a2={a2}', harness='sched4',
+                                        fixed=dict(prog=prog, a0=a0, a1=a1, a2=a2), budget_s=1500))
     return out
 
 
@@ -203,7 +202,7 @@ BOUNDS = {
     'quick': dict(events='3 events over {pause, play, wake-up 1, wake-up 2} at gaps 0..%d; final play by the environment' % NPOS,
                   programs='P2 (sync wait), W1 (async steps around a wait), P8 (workchain awaiting 1 future), W2 (workchain awaiting 2 futures, both registration ways)',
                   data='resume / future values: int (symbolic)'),
-    'thorough': dict(events='4 events (all programs), 5 events (W1, W2)', programs='P2 W1 P8 W2', data='int'),
+    'thorough': dict(events='3 events at gaps 0..%d and 4 events at gaps 0..6 (all programs)' % NPOS, programs='P2 W1 P8 W2', data='int'),
 }
 OUTSIDE = ['kill/fail racing with the wake-up (C04/C02)', 'child processes as awaitables (C10)', 'more events than the bound', 'real threads']
 RULE = 'paths over (program, events with positions, values); non-trivial when a valid wake-up happened (resume on a WAITING process / all awaited futures completed) so the no-lost-wake-up oracle applied'
